@@ -301,7 +301,7 @@ pub fn run(ctx: &Ctx) -> i32 {
     let opts = SweepOpts {
         threads: threads(),
         wall_limit_s: 60,
-        on_stuck: Box::new(|_, idx| eprintln!("MACHINERY ERROR: C15 execution stuck at spec {idx}")),
+        on_stuck: Box::new(|_, idx| { eprintln!("MACHINERY ERROR: C15 execution stuck at spec {idx}"); None }),
         fam_no: 0,
         stride: 1,
         offset: 0,
